@@ -29,11 +29,25 @@ pub fn run(ctx: &mut Ctx, _replay: Option<&[String]>) {
     }
     for bs in &bitstrings {
         let b2 = bs.clone();
-        let m = BpskModulator::new().modulate(&gf2(&b2));
+        let m = if rng.chance(1, 2) { BpskModulator::new().modulate(&gf2(&b2)) } else {
+            let rev: Vec<bool> = b2.iter().rev().copied().collect();
+            let a = gf2(&rev);
+            BpskModulator::new().modulate(&a.slice(ndarray::s![..;-1]))
+        };
         let s = if m.is_empty() { "-".to_string() } else { m.iter().map(|&x| hx(x)).collect::<Vec<_>>().join(",") };
         ctx.emit(&format!("c14 modb {}", bools(bs.iter().copied())), &s, !bs.is_empty(), &["bpsk-modulate"]);
         let b3 = bs.clone();
-        let o = match guarded(move || Psk8Modulator::new().modulate(&gf2(&b3))) {
+        // the bits arrive as an owned array, as a reversed view of the reversed array (stride -1) or as every second element of a
+        // padded array (stride 2): `modulate` takes any 1-D array view and must read it in LOGICAL order
+        let layout = rng.below(3);
+        let o = match guarded(move || {
+            use ndarray::s;
+            match layout {
+                0 => Psk8Modulator::new().modulate(&gf2(&b3)),
+                1 => { let rev: Vec<bool> = b3.iter().rev().copied().collect(); let a = gf2(&rev); Psk8Modulator::new().modulate(&a.slice(s![..;-1])) }
+                _ => { let pad: Vec<bool> = b3.iter().flat_map(|&b| [b, !b]).collect(); let a = gf2(&pad); Psk8Modulator::new().modulate(&a.slice(s![..;2])) }
+            }
+        }) {
             Ok(v) => if v.is_empty() { "-".to_string() } else { v.iter().map(|c| format!("{}.{}", hx(c.re), hx(c.im))).collect::<Vec<_>>().join(",") },
             Err(_) => "panic".to_string(),
         };
